@@ -140,6 +140,7 @@ func CmdCheck(prop, tier string) int {
 		return 2
 	}
 	replayDir := filepath.Join(VerifDir, "replays", prop)
+	os.RemoveAll(replayDir)
 	os.MkdirAll(replayDir, 0o755)
 
 	var records []oblRecord
